@@ -1,4 +1,5 @@
 import Logrange.Model.WritersLts
+import Logrange.Generated.C01
 /-!
 # The positions concurrent writers get back from `Chunk.write` — C01
 
@@ -48,5 +49,23 @@ def runLog (maxSize : Nat) : State → List Label → State × List Ret
 
 /-- the count a writer reads LATE (after the lock was released) for chunk `idx`: the chunk's length in a later state -/
 def lateCount (s : State) (idx : Nat) : Nat := (s.chunks[idx]?.map (·.recs.length)).getD 0
+
+/-! ## the per-partition write lock of `partition.Service.Write` (regenerated fact `writeLockScope`) -/
+
+/-- does a caller of `Service.Write` with this `noEvent` argument hold the partition's write lock while it appends and announces?
+`writeLockScope`: 2 = every caller, 1 = only callers that publish a write event (`if !noEvent { … Lock() }`, /repo 25f9816: the
+pipe workers pass `noEvent = true`), 0 = nobody (before 25f9816) -/
+def takesLock (noEvent : Bool) : Bool :=
+  if Generated.C01.writeLockScope = 2 then true else if Generated.C01.writeLockScope = 1 then !noEvent else false
+
+/-- what the other writers of the partition can do between writer `w`'s `Chunk.write` return and the (late) read of the count:
+a writer that holds the partition's write lock keeps out every other writer that takes it too — those are waiting in (or before)
+`Lock()`: they can be submitted, nothing more; writers that do not take the lock step freely. `noEv v` is the `noEvent`
+argument writer `v` calls with. (`w` itself takes no step in between.) -/
+def between (noEv : Nat → Bool) (w : Nat) (more : List Label) : List Label :=
+  more.filter (fun l => match l with
+    | .submit _ _ => true
+    | .getChunk v => v != w && !(takesLock (noEv w) && takesLock (noEv v))
+    | .chunkWrite v => v != w && !(takesLock (noEv w) && takesLock (noEv v)))
 
 end Logrange.WritersLts
